@@ -1,15 +1,187 @@
-(* C16 — property theorems.  Only statements closed by [exact]; proofs live in Arith/*.v. *)
-From Coq Require Import ZArith QArith Qround Qreduction Qabs List String.
-From NV Require Import Arith.Num Arith.Expr Arith.Eq Arith.NumProofs Arith.StdProofs Gen.StdNumber.
+(* C16 — property theorems.  Only statements closed by [exact]; proofs live in Arith/*.v
+   (StdProofs.v is about Gen/StdNumber.v, regenerated from std.ncl on every run). *)
+From Coq Require Import ZArith QArith Qround Qreduction Qabs List String Bool Permutation.
+From NV Require Import Arith.Num Arith.Expr Arith.Eq Arith.NumProofs Arith.StdProofs Arith.EqProofs Gen.StdNumber.
 Import ListNotations.
 Open Scope Q_scope.
 
-Theorem C16_modulo_spec : forall a b, ~ b == 0 ->
-  exists r, nmod a b = Ok r
-    /\ a == inject_Z (trunc (a / b)) * b + r
-    /\ Qabs r < Qabs b
-    /\ (0 <= a -> 0 <= r) /\ (a <= 0 -> r <= 0).
+Theorem C16_ops_canonical : forall a b, Qred (nadd a b) = nadd a b /\ Qred (nsub a b) = nsub a b /\ Qred (nmul a b) = nmul a b.
+Proof. exact ops_canonical. Qed.
+
+Theorem C16_ops_proper : forall a a' b b', a == a' -> b == b' -> nadd a b = nadd a' b' /\ nsub a b = nsub a' b' /\ nmul a b = nmul a' b' /\ ndiv a b = ndiv a' b' /\ nmod a b = nmod a' b'.
+Proof. exact ops_proper. Qed.
+
+Theorem C16_add_comm : forall a b, nadd a b = nadd b a.
+Proof. exact nadd_comm. Qed.
+
+Theorem C16_add_assoc : forall a b c, nadd (nadd a b) c = nadd a (nadd b c).
+Proof. exact nadd_assoc. Qed.
+
+Theorem C16_add_0_l : forall a, nadd 0 a = Qred a.
+Proof. exact nadd_0_l. Qed.
+
+Theorem C16_sub_diag : forall a, nsub a a = 0.
+Proof. exact nsub_diag. Qed.
+
+Theorem C16_sub_add : forall a b, nadd (nsub a b) b = Qred a.
+Proof. exact nsub_nadd. Qed.
+
+Theorem C16_mul_comm : forall a b, nmul a b = nmul b a.
+Proof. exact nmul_comm. Qed.
+
+Theorem C16_mul_assoc : forall a b c, nmul (nmul a b) c = nmul a (nmul b c).
+Proof. exact nmul_assoc. Qed.
+
+Theorem C16_mul_1_l : forall a, nmul 1 a = Qred a.
+Proof. exact nmul_1_l. Qed.
+
+Theorem C16_mul_add_distr : forall a b c, nmul a (nadd b c) = nadd (nmul a b) (nmul a c).
+Proof. exact nmul_nadd_distr. Qed.
+
+Theorem C16_div_spec : forall a b, ~ b == 0 -> exists q, ndiv a b = Ok q /\ nmul q b = Qred a.
+Proof. exact ndiv_spec. Qed.
+
+Theorem C16_div_zero : forall a b, b == 0 -> ndiv a b = Err DivByZero.
+Proof. exact ndiv_zero. Qed.
+
+Theorem C16_cmp_trichotomy : forall a b, (nlt a b = true /\ neqb a b = false /\ ngt a b = false) \/ (nlt a b = false /\ neqb a b = true /\ ngt a b = false) \/ (nlt a b = false /\ neqb a b = false /\ ngt a b = true).
+Proof. exact cmp_trichotomy. Qed.
+
+Theorem C16_cmp_duality : forall a b, nlt a b = ngt b a /\ nle a b = nge b a /\ nle a b = negb (ngt a b) /\ nge a b = negb (nlt a b) /\ nle a b = (nlt a b || neqb a b)%bool.
+Proof. exact cmp_duality. Qed.
+
+Theorem C16_lt_irrefl : forall a, nlt a a = false.
+Proof. exact nlt_irrefl. Qed.
+
+Theorem C16_lt_trans : forall a b c, nlt a b = true -> nlt b c = true -> nlt a c = true.
+Proof. exact nlt_trans. Qed.
+
+Theorem C16_le_antisym : forall a b, nle a b = true -> nle b a = true -> neqb a b = true.
+Proof. exact nle_antisym. Qed.
+
+Theorem C16_le_total : forall a b, nle a b = true \/ nle b a = true.
+Proof. exact nle_total. Qed.
+
+Theorem C16_lt_add_compat : forall a b c, nlt a b = nlt (nadd a c) (nadd b c).
+Proof. exact nlt_nadd_compat. Qed.
+
+Theorem C16_lt_mul_compat : forall a b c, 0 < c -> nlt a b = nlt (nmul a c) (nmul b c).
+Proof. exact nlt_nmul_compat. Qed.
+
+Theorem C16_cmp_proper : forall a a' b b', a == a' -> b == b' -> nlt a b = nlt a' b' /\ nle a b = nle a' b' /\ neqb a b = neqb a' b'.
+Proof. exact cmp_proper. Qed.
+
+Theorem C16_modulo_spec : forall a b, ~ b == 0 -> exists r, nmod a b = Ok r /\ a == inject_Z (trunc (a / b)) * b + r /\ Qabs r < Qabs b /\ (0 <= a -> 0 <= r) /\ (a <= 0 -> r <= 0).
 Proof. exact modulo_spec. Qed.
+
+Theorem C16_modulo_zero : forall a b, b == 0 -> nmod a b = Err DivByZero.
+Proof. exact modulo_zero. Qed.
+
+Theorem C16_trunc_towards_zero : forall x, (0 <= x -> trunc x = Qfloor x) /\ (x <= 0 -> trunc x = Qceiling x).
+Proof. exact trunc_towards_zero. Qed.
+
+Theorem C16_pow_add : forall a m n x y, fits_i64 m = true -> fits_i64 n = true -> fits_i64 (m + n) = true -> npow a (inject_Z m) = Ok x -> npow a (inject_Z n) = Ok y -> npow a (inject_Z (m + n)) = Ok (nmul x y).
+Proof. exact pow_add. Qed.
+
+Theorem C16_pow_mul : forall a m n x y, fits_i64 m = true -> fits_i64 n = true -> fits_i64 (m * n) = true -> npow a (inject_Z m) = Ok x -> npow x (inject_Z n) = Ok y -> npow a (inject_Z (m * n)) = Ok y.
+Proof. exact pow_mul. Qed.
+
+Theorem C16_pow_neg : forall a n, ~ a == 0 -> fits_i64 n = true -> fits_i64 (- n) = true -> exists x, npow a (inject_Z n) = Ok x /\ npow a (inject_Z (- n)) = Ok (Qred (/ x)).
+Proof. exact pow_neg. Qed.
+
+Theorem C16_pow_zero_neg : forall a n, a == 0 -> (n < 0)%Z -> fits_i64 n = true -> npow a (inject_Z n) = Err DivByZero.
+Proof. exact pow_zero_neg. Qed.
+
+Theorem C16_pow_0_r : forall a, npow a 0 = Ok 1.
+Proof. exact pow_0_r. Qed.
+
+Theorem C16_pow_succ : forall a n x, (0 <= n)%Z -> fits_i64 n = true -> fits_i64 (n + 1) = true -> npow a (inject_Z n) = Ok x -> npow a (inject_Z (n + 1)) = Ok (nmul x a).
+Proof. exact pow_succ. Qed.
+
+Theorem C16_pow_unspecified : forall a b, as_i64 b = None -> npow a b = Unspec.
+Proof. exact pow_unspecified. Qed.
+
+Theorem C16_pow_doc_range_refuted : exists a n, (- 2 ^ 63 <= n <= 2 ^ 64 - 1)%Z /\ npow a (inject_Z n) = Unspec.
+Proof. exact pow_doc_range_refuted. Qed.
+
+Theorem C16_from_sci_spec : forall l, from_sci l == (inject_Z (Z.of_N (digits_val (l_int l))) + inject_Z (Z.of_N (digits_val (l_frac l))) / (10 # 1) ^ Z.of_nat (List.length (l_frac l))) * (10 # 1) ^ l_exp l.
+Proof. exact from_sci_spec. Qed.
+
+Theorem C16_from_sci_canonical : forall l, Qred (from_sci l) = from_sci l.
+Proof. exact from_sci_canonical. Qed.
+
+Theorem C16_from_sci_leading_zero : forall i f e, from_sci (mkLit (0%N :: i) f e) = from_sci (mkLit i f e).
+Proof. exact from_sci_leading_zero. Qed.
+
+Theorem C16_from_sci_trailing_zero : forall i f e, from_sci (mkLit i (f ++ [0%N]) e) = from_sci (mkLit i f e).
+Proof. exact from_sci_trailing_zero. Qed.
+
+Theorem C16_from_sci_shift : forall i f e, from_sci (mkLit i f e) = from_sci (mkLit (i ++ f) [] (e - Z.of_nat (List.length f))).
+Proof. exact from_sci_shift. Qed.
+
+Theorem C16_from_sci_int : forall ds, from_sci (mkLit ds [] 0) = inject_Z (Z.of_N (digits_val ds)).
+Proof. exact from_sci_int. Qed.
 
 Theorem C16_floor_spec : forall x, std1 "floor" x = okn (Qred (inject_Z (Qfloor x))).
 Proof. exact floor_spec. Qed.
+
+Theorem C16_floor_char : forall x, exists z, std1 "floor" x = okn (inject_Z z) /\ inject_Z z <= x /\ x < inject_Z z + 1.
+Proof. exact floor_char. Qed.
+
+Theorem C16_truncate_spec : forall x, std1 "truncate" x = okn (Qred (inject_Z (trunc x))).
+Proof. exact truncate_spec. Qed.
+
+Theorem C16_fract_spec : forall x, std1 "fract" x = okn (Qred (x - inject_Z (trunc x))).
+Proof. exact fract_spec. Qed.
+
+Theorem C16_truncate_fract : forall x, exists t f, std1 "truncate" x = okn t /\ std1 "fract" x = okn f /\ x == t + f /\ Qabs f < 1 /\ (0 <= x -> 0 <= f) /\ (x <= 0 -> f <= 0).
+Proof. exact truncate_fract. Qed.
+
+Theorem C16_abs_spec : forall x, exists y, std1 "abs" x = okn y /\ y == Qabs x.
+Proof. exact abs_value. Qed.
+
+Theorem C16_min_spec : forall x y, std2 "min" x y = okn (mn x y).
+Proof. exact min_spec. Qed.
+
+Theorem C16_max_spec : forall x y, std2 "max" x y = okn (mx x y).
+Proof. exact max_spec. Qed.
+
+Theorem C16_minmax_lattice : forall x y z, mn x y == mn y x /\ mx x y == mx y x /\ mn (mn x y) z == mn x (mn y z) /\ mx (mx x y) z == mx x (mx y z) /\ mn x x == x /\ mx x x == x /\ mn x (mx x y) == x /\ mx x (mn x y) == x /\ mn x y <= x /\ mn x y <= y /\ x <= mx x y /\ y <= mx x y /\ (z <= x -> z <= y -> z <= mn x y) /\ (x <= z -> y <= z -> mx x y <= z) /\ (mn x y = x \/ mn x y = y) /\ (mx x y = x \/ mx x y = y).
+Proof. exact minmax_lattice. Qed.
+
+Theorem C16_is_integer_spec : forall x, std1 "is_integer" x = okb (Pos.eqb (Qden (Qred x)) 1).
+Proof. exact is_integer_spec. Qed.
+
+Theorem C16_compare_spec : forall x y, std2 "compare" x y = Ok (VEnum (match (x ?= y)%Q with Lt => "Lesser" | Eq => "Equal" | Gt => "Greater" end)).
+Proof. exact compare_spec. Qed.
+
+Theorem C16_pow_spec : forall x n, std2 "pow" x n = lift (npow x n).
+Proof. exact pow_spec. Qed.
+
+Theorem C16_eq_refl : forall a, wf a = true -> dv_eqb a a = true.
+Proof. exact EqProofs.eq_refl. Qed.
+
+Theorem C16_eq_sym : forall a b, wf a = true -> wf b = true -> dv_eqb a b = dv_eqb b a.
+Proof. exact EqProofs.eq_sym. Qed.
+
+Theorem C16_eq_trans : forall a b c, wf a = true -> wf b = true -> wf c = true -> dv_eqb a b = true -> dv_eqb b c = true -> dv_eqb a c = true.
+Proof. exact EqProofs.eq_trans. Qed.
+
+Theorem C16_eq_perm : forall f g, Permutation f g -> wf (DRec f) = true -> dv_eqb (DRec f) (DRec g) = true.
+Proof. exact eq_perm. Qed.
+
+Theorem C16_eq_num_repr : forall p q, (p == q)%Q -> dv_eqb (DNum p) (DNum q) = true.
+Proof. exact eq_num_repr. Qed.
+
+Theorem C16_eq_iff_canon : forall a b, wf a = true -> wf b = true -> (dv_eqb a b = true <-> canon a = canon b).
+Proof. exact eq_iff_canon. Qed.
+
+Theorem C16_eq_iff_export : forall a b, wf a = true -> wf b = true -> enum_free a = true -> enum_free b = true -> (dv_eqb a b = true <-> export a = export b).
+Proof. exact eq_iff_export. Qed.
+
+Theorem C16_eq_export_enum_refuted : exists a b, wf a = true /\ wf b = true /\ export a = export b /\ dv_eqb a b = false.
+Proof. exact eq_export_enum_refuted. Qed.
+
+Theorem C16_eq_stack_equiv : forall a b, wf a = true -> wf b = true -> eq_machine a b = Some (dv_eqb a b).
+Proof. exact eq_stack_equiv. Qed.
+
